@@ -8,6 +8,7 @@ import (
 	"fmt"
 	"math"
 	"math/big"
+	"math/bits"
 )
 
 const debugDecimal = false // enable for debugging
@@ -1065,7 +1066,7 @@ func (z *Decimal) Set(x *Decimal) *Decimal {
 //  z.SetMode(m).SetPrec(p)
 func (z *Decimal) SetFloat(x *big.Float) *Decimal {
 	if z.prec == 0 {
-		z.prec = uint32(math.Ceil(float64(x.Prec()) * log10_2))
+		z.prec = ceilLog10Pow2(uint32(x.Prec()))
 	}
 	z.acc = Exact
 	z.neg = x.Signbit()
@@ -1199,6 +1200,21 @@ func (z *Decimal) SetInf(signbit bool) *Decimal {
 
 const log2_10 = math.Ln10 / math.Ln2
 const log10_2 = math.Ln2 / math.Ln10
+
+// ceilLog10Pow2 returns ⌈n * Log10(2)⌉, the number of decimal digits of
+// 2**n for n > 0, in integer arithmetic: the float64 product n * log10_2 is
+// rounded, and for some n (198096465) it is rounded onto an integer.
+func ceilLog10Pow2(n uint32) uint32 {
+	if n == 0 {
+		return 0
+	}
+	// Log10(2) * 2**96 = chi * 2**64 + clo, truncated. The error of the
+	// product is below n * 2**-96 < 2**-64, far less than the distance of
+	// n * Log10(2) from the nearest integer for any n < 2**32.
+	const chi, clo = 0x4d104d42, 0x7de7fbcc47c4acd6
+	ph, _ := bits.Mul64(uint64(n), clo)
+	return uint32((ph+uint64(n)*chi)>>32) + 1
+}
 
 // SetInt sets z to the (possibly rounded) value of x and returns z. If z's
 // precision is 0, it is changed, after conversion, to max(z.MinPrec(), DefaultDecimalPrec) (and
